@@ -35,6 +35,12 @@ type trace struct {
 	recov int
 	// attributes set to nil, per Request object: Attribute() cannot tell "never set" from "set to nil"
 	nilSet map[*restful.Request]map[string]bool
+	// condRan: an If-condition found the panic header on this request (and panicked)
+	condRan bool
+	// ppOwn: the reserved path parameters (ppPrefix) this request wrote itself, key -> value;
+	// leaks: reserved parameters a stage saw that this request had not written
+	ppOwn map[[2]string]bool
+	leaks [][2]string
 }
 
 func traceOf(r *http.Request) *trace {
@@ -105,6 +111,23 @@ func logStage(req *restful.Request, hr *http.Request, w http.ResponseWriter, sta
 		}
 		sort.Strings(keys)
 		for _, k := range keys {
+			if strings.HasPrefix(k, ppPrefix) {
+				// ppGuard: the model does not cover writes into the parameter map, so a reserved
+				// parameter is never part of the event. One that THIS request wrote is its own business;
+				// one it did not write was put there by another request.
+				t.mu.Lock()
+				if kv := [2]string{k, ps[k]}; !t.ppOwn[kv] {
+					seen := false
+					for _, l := range t.leaks {
+						seen = seen || l == kv
+					}
+					if !seen {
+						t.leaks = append(t.leaks, kv)
+					}
+				}
+				t.mu.Unlock()
+				continue
+			}
 			ev.Params = append(ev.Params, [2]string{k, ps[k]})
 		}
 		ev.SelPath = req.SelectedRoutePath()
@@ -159,6 +182,21 @@ func runActs(as []Act, req *restful.Request, w http.ResponseWriter) {
 					t.mu.Unlock()
 				}
 			}
+		case "pp":
+			// a filter or handler hands a derived value on in the request's parameter map
+			if req != nil {
+				if t := traceOf(req.Request); t != nil {
+					t.mu.Lock()
+					if t.ppOwn == nil {
+						t.ppOwn = map[[2]string]bool{}
+					}
+					t.ppOwn[[2]string{a.B, a.V}] = true
+					t.mu.Unlock()
+				}
+				if ps := req.PathParameters(); ps != nil {
+					ps[a.B] = a.V
+				}
+			}
 		case "we":
 			if r, ok := w.(*restful.Response); ok {
 				r.WriteErrorString(a.N, a.B)
@@ -180,9 +218,19 @@ func rawWriter(w http.ResponseWriter) http.ResponseWriter {
 	return w
 }
 
-// AbortText and the "error: " prefix select panic VALUES that are not strings: the sentinel
-// http.ErrAbortHandler and an ordinary error value. The model sees the text fmt.Sprint gives.
+// AbortText, the "error: " prefix, the "[ServiceError:N] " prefix and all-digit texts select panic
+// VALUES that are not strings: the sentinel http.ErrAbortHandler, an ordinary error value, a value of
+// the library's own error type (restful.NewError(N, msg), as code that re-raises an error it got from
+// the library does) and an int. The model sees the text fmt.Sprint gives.
 var AbortText = http.ErrAbortHandler.Error()
+
+// ppPrefix is the family of path-parameter names the "pp" act writes (no generated template uses it).
+const ppPrefix = "verif-pp"
+
+const svcErrPrefix = "[ServiceError:"
+
+// SvcErrText is the text of the panic value restful.NewError(code, msg).
+func SvcErrText(code int, msg string) string { return restful.NewError(code, msg).Error() }
 
 func panicValue(text string) interface{} {
 	switch {
@@ -190,8 +238,36 @@ func panicValue(text string) interface{} {
 		return http.ErrAbortHandler
 	case strings.HasPrefix(text, "error: "):
 		return errors.New(text)
+	case strings.HasPrefix(text, svcErrPrefix):
+		if i := strings.Index(text, "] "); i > 0 {
+			if code, err := strconv.Atoi(text[len(svcErrPrefix):i]); err == nil {
+				return restful.NewError(code, text[i+2:])
+			}
+		}
+	}
+	if n, err := strconv.Atoi(text); err == nil && strconv.Itoa(n) == text {
+		return n
 	}
 	return text
+}
+
+// condPanicHeader: fault traffic whose panic is raised INSIDE route selection. Every route of a serve
+// table carries one If-condition of the harness that is true for every request and panics with the
+// header's value when the header is there (user code that runs while the router holds the container's
+// read lock). The routers evaluate it only for routes whose path matches, so whether it ran is
+// recorded (Result.CondRan) and SReq.CondPanic is kept only when it did.
+const condPanicHeader = "X-Verif-Cond-Panic"
+
+func condPanicFn(r *http.Request) bool {
+	if v := r.Header.Get(condPanicHeader); v != "" {
+		if t := traceOf(r); t != nil {
+			t.mu.Lock()
+			t.condRan = true
+			t.mu.Unlock()
+		}
+		panic(panicValue(v))
+	}
+	return true
 }
 
 // hijackRec is a recorder whose connection can be taken over.
@@ -292,6 +368,26 @@ type mwReqKey struct{}
 type gateKey struct{}
 type gateFirstKey struct{}
 
+// RouterErrPath is the path a refusingRouter refuses with a plain error value.
+const RouterErrPath = "/verif-router-error"
+
+// refusingRouter is a RouteSelector as an application may write one: it delegates to a built-in router
+// and reports some routing failures of its own — with an ordinary error, not a restful.ServiceError.
+type refusingRouter struct{ inner restful.RouteSelector }
+
+func (p refusingRouter) SelectRoute(wss []*restful.WebService, r *http.Request) (*restful.WebService, *restful.Route, error) {
+	if r.URL.Path == RouterErrPath {
+		return nil, nil, errors.New("verif: the route selector refuses this path")
+	}
+	return p.inner.SelectRoute(wss, r)
+}
+
+type refusingJSR struct{ refusingRouter }
+
+func (p refusingJSR) ExtractParameters(route *restful.Route, ws *restful.WebService, urlPath string) map[string]string {
+	return restful.RouterJSR311{}.ExtractParameters(route, ws, urlPath)
+}
+
 // PlainPath / PlainFPath are the patterns of the Handle / HandleWithFilter registrations.
 const PlainPath, PlainFPath = "/plain-h", "/plain-hf"
 
@@ -322,6 +418,15 @@ func Build(cfg *Cfg) (c *restful.Container, err error) {
 	c = restful.NewContainer()
 	if cfg.Routing.Router == "jsr" {
 		c.Router(restful.RouterJSR311{})
+	}
+	if cfg.RouterErr {
+		// a RouteSelector of the application's own around the built-in one (RouterJSR311 also extracts
+		// the path parameters: the wrapper must then offer that too)
+		if cfg.Routing.Router == "jsr" {
+			c.Router(refusingJSR{refusingRouter{restful.RouterJSR311{}}})
+		} else {
+			c.Router(refusingRouter{restful.CurlyRouter{}})
+		}
 	}
 	if cfg.Late {
 		// the switches are set the other way round first and to their configured values after
@@ -370,18 +475,33 @@ func Build(cfg *Cfg) (c *restful.Container, err error) {
 	for _, s := range cfg.Routing.Services {
 		ws := new(restful.WebService)
 		ws.Path(s.Root)
-		for _, f := range cfg.SvcF[s.ID] {
-			ws.Filter(mkFilter(f, "sf"+strconv.Itoa(f.ID)))
+		if len(s.Consumes) > 0 {
+			ws.Consumes(s.Consumes...)
+		}
+		if len(s.Produces) > 0 {
+			ws.Produces(s.Produces...)
+		}
+		// the registration order of the service's filters relative to its routes and to Add (cfg.Order)
+		pending := cfg.SvcF[s.ID]
+		giveFilters := func(n int) {
+			for ; n > 0 && len(pending) > 0; n-- {
+				f := pending[0]
+				pending = pending[1:]
+				ws.Filter(mkFilter(f, "sf"+strconv.Itoa(f.ID)))
+			}
+		}
+		switch cfg.Order {
+		case 0:
+			giveFilters(len(pending))
+		case 3:
+			giveFilters(1)
 		}
 		for _, r := range s.Routes {
 			rx := cfg.RouteX[r.ID]
-			b := ws.Method(r.Method).Path(r.Rel)
-			if len(r.Consumes) > 0 {
-				b.Consumes(r.Consumes...)
-			}
-			if len(r.Produces) > 0 {
-				b.Produces(r.Produces...)
-			}
+			// method, path, Consumes/Produces, If-conditions, AllowedMethodsWithoutContentType as the
+			// routing stream registers them; the route function is replaced below
+			b := routing.RouteBuilder(ws, s, r)
+			b.If(condPanicFn)
 			for _, f := range rx.Filters {
 				b.Filter(mkFilter(f, "rf"+strconv.Itoa(f.ID)))
 			}
@@ -394,8 +514,15 @@ func Build(cfg *Cfg) (c *restful.Container, err error) {
 				runActs(script, req, resp)
 			})
 			ws.Route(b)
+			if cfg.Order == 3 {
+				giveFilters(1)
+			}
+		}
+		if cfg.Order == 1 {
+			giveFilters(len(pending))
 		}
 		c.Add(ws)
+		giveFilters(len(pending)) // orders 2 and 3: what is left is registered on the service after Container.Add
 	}
 	plain := http.HandlerFunc(func(w http.ResponseWriter, r *http.Request) {
 		logStage(nil, r, w, "plain", false)
@@ -554,7 +681,7 @@ func serveImpl(c *restful.Container, cfg *Cfg, r SReq, led *Ledger, sequential b
 		hr.Header.Set("Accept-Encoding", r.AE)
 	}
 	if r.CondPanic != "" {
-		hr.Header.Set("X-Verif-Cond-Panic", r.CondPanic)
+		hr.Header.Set(condPanicHeader, r.CondPanic)
 	}
 	ctx := context.WithValue(context.Background(), ctxKey{}, t)
 	if gate != nil && len(cfg.CF) > 0 {
@@ -589,13 +716,16 @@ func serveImpl(c *restful.Container, cfg *Cfg, r SReq, led *Ledger, sequential b
 		}
 	}()
 	a1, r1, d1 := led.Snapshot()
-	res.KeepErr = cfg.CustomErr
+	res.KeepErr = cfg.CustomErr && !r.RouterErr // no service-error writer runs for an error that is not a ServiceError
 	res.Acq, res.Rel, res.DblRel = a1-a0, r1-r0, d1-d0
 	res.Recov = t.recov
 	if sequential {
 		res.RecovDefault = libLog.count() - l0
 	}
 	res.Log = t.log
+	t.mu.Lock()
+	res.CondRan, res.Leaks = t.condRan, t.leaks
+	t.mu.Unlock()
 	result := rec.Result()
 	res.Status = result.StatusCode
 	res.CE = result.Header.Get("Content-Encoding")
@@ -656,3 +786,29 @@ func serveImpl(c *restful.Container, cfg *Cfg, r SReq, led *Ledger, sequential b
 	}
 	return res
 }
+
+// WriterFree performs a writer operation on the container's registration state — Add and Remove of a
+// throw-away WebService — under a watchdog. "No lock left held" (C10): after any traffic, fault
+// traffic included, it must return; readers never show a read lock that was left held, the next writer
+// does. false = it did not return (its goroutine stays blocked; the container is to be discarded).
+func WriterFree(c *restful.Container) bool {
+	done := make(chan struct{})
+	go func() {
+		defer close(done)
+		defer func() { recover() }()
+		ws := new(restful.WebService)
+		ws.Path("/verif-throw-away")
+		ws.Route(ws.GET("/").To(func(*restful.Request, *restful.Response) {}))
+		c.Add(ws)
+		c.Remove(ws)
+	}()
+	select {
+	case <-done:
+		return true
+	case <-time.After(writerWatchdog):
+		writerWatchdog = 250 * time.Millisecond // one long wait per run is enough to tell slow from blocked
+		return false
+	}
+}
+
+var writerWatchdog = 2 * time.Second // sequential use only
